@@ -12,7 +12,7 @@ C07 — specification side, written from the W3C texts (not from the code):
 
 Shared with the model (imported, not re-defined): the data types `Atom`/`Item`/`Mode`/`Op`/`Err`, the
 exact-rational reading of IEEE doubles `D` with `toD64`/`toD32` (IEEE-754 roundTiesToEven), and the
-*lexical fragment* classifiers `lexNum`/`hexDecode`/`notTemporalLexical` (the XSD lexical mappings themselves are C10's
+*lexical fragment* classifiers `lexNum`/`hexDecode`/`b64Decode`/`ncName`/`notTemporalLexical` (the XSD lexical mappings themselves are C10's
 subject; outside the fragment the spec answers "not applicable").  The orders, the promotion rules,
 the conversion rules and the comparability table below are independent of the model.
 -/
@@ -150,7 +150,14 @@ def castUntyped (s : Str) (o : Atom) : Except Err Atom :=
   | .ua _ => .ok (.str s)
   | .bool _ => (castBool s).map .bool
   | .uri _ => if hasInnerWs s then .error .unsupported else .ok (.uri (strip s))
-  | .qn .. => .error .unsupported        -- 2.0: not castable; 3.x: needs the static namespaces
+  | .qn .. =>
+    -- XPath 3.x (F&O 3.1 §19.3.? casting to xs:QName): an unprefixed lexical NCName gives a QName in no
+    -- namespace (no default element namespace is declared in the harness' static context); a prefixed
+    -- one needs the statically known namespaces (FONS0004 here): not applicable.  XPath 2.0: see `pairSpec`.
+    (match ncName s with
+     | .valid v => .ok (.qn [] [] v)
+     | .invalid => .error .FORG0001
+     | _ => .error .unsupported)
   | .date _ | .dtm _ | .time _ | .dur .. | .ymd _ | .dtd _ =>
     if notTemporalLexical s then .error .FORG0001 else .error .unsupported
   | .hex _ =>
@@ -159,15 +166,30 @@ def castUntyped (s : Str) (o : Atom) : Except Err Atom :=
     | some b => .ok (.hex b)
     | none => .error .FORG0001
   | .b64 _ =>
-    let v := (strip s).filter (· ≠ 32)
-    if v.isEmpty then .ok (.b64 [])
-    else if !(v.all isB64Char) || v.length % 4 ≠ 0 then .error .FORG0001
-    else .error .unsupported
+    match b64Decode (s.filter fun c => !isWs c) with
+    | some b => .ok (.b64 b)
+    | none => .error .FORG0001
+
+/-- rule (b)/(c) then the value comparison, for a pair with exactly one untyped operand -/
+def castThen (m : Mode) (op : Op) (a b : Atom) : Except Err Bool :=
+  match a, b with
+  | .ua s, _ =>
+    (match castUntyped s b with
+     | .ok a' => valueOp (binOrdered m) op a' b
+     | .error e => .error e)
+  | _, .ua t =>
+    (match castUntyped t a with
+     | .ok b' => valueOp (binOrdered m) op a b'
+     | .error e => .error e)
+  | _, _ => valueOp (binOrdered m) op a b
 
 /-- one pair of a general comparison without compatibility mode (XPath 3.1 §3.7.2 rules a-d) -/
 def pairSpec (m : Mode) (op : Op) (a b : Atom) : Except Err Bool :=
   match a, b with
   | .ua s, .ua t => valueOp (binOrdered m) op (.str s) (.str t)
+  -- XPath 2.0 (F&O 1.0 §17.1 casting table): xs:untypedAtomic cannot be cast to xs:QName → XPTY0004
+  | .ua _, .qn .. => if m = .v31 then castThen m op a b else .error .XPTY0004
+  | .qn .., .ua _ => if m = .v31 then castThen m op a b else .error .XPTY0004
   | .ua s, _ =>
     (match castUntyped s b with
      | .ok a' => valueOp (binOrdered m) op a' b
